@@ -35,6 +35,29 @@ def fresh_tree(slot):
     return d, d + "/tree"
 
 
+def rebase_patch(patch, slot):
+    """A patch written against an older HEAD of /repo (a fix: commit landed since): three-way apply it in a scratch worktree
+    and return the path of the regenerated diff, or None when it conflicts."""
+    wt = f"{SCR}/rebase-{slot}"
+    sh(f"git -C {REPO} worktree remove --force {wt}")
+    rc, out = sh(f"git -C {REPO} worktree add --detach {wt} HEAD")
+    if rc != 0:
+        return None
+    try:
+        sh(f"git apply --3way --whitespace=nowarn {patch}", cwd=wt)
+        rc, unmerged = sh("git diff --name-only --diff-filter=U", cwd=wt)
+        if unmerged.strip():
+            return None
+        rc, diff = sh("git diff HEAD", cwd=wt)
+        if not diff.strip():
+            return None
+        new = patch + ".rebased"
+        open(new, "w").write(diff)
+        return new
+    finally:
+        sh(f"git -C {REPO} worktree remove --force {wt}")
+
+
 def tests_ok(out):
     oks = re.findall(r"test result: ok\. (\d+) passed; 0 failed", out)
     return "test result: FAILED" not in out and "70" in oks and "5" in oks
@@ -56,6 +79,14 @@ def add(src, prop, name):
     # 2. patch applies; suite passes; demo fails
     rc, out = sh(f"git apply --whitespace=nowarn {patch}", cwd=tree)
     applies = rc == 0
+    if not applies:
+        nb = rebase_patch(patch, "add-" + sid)
+        if nb:
+            rc, out = sh(f"git apply --whitespace=nowarn {nb}", cwd=tree)
+            applies = rc == 0
+            if applies:
+                patch = nb
+                ran.append("patch was written against an older HEAD: rebased by three-way apply")
     ran.append("git apply patch.diff -> " + ("ok" if applies else "FAILED: " + out[-200:]))
     suite_ok = demo_fails = False
     if applies:
